@@ -283,6 +283,7 @@ fn main_events(recs: &[Rec]) -> Vec<&str> {
 // C02
 
 fn c02(cfg: &CCfg, e: &Exec, f: &Facts, vs: &mut Vec<Violation>, nt: &mut bool) {
+    c02_cancellations(cfg, e, f, vs);
     panics(f, cfg, "C02-panic", vs);
     if f.horizon {
         v(vs, "C02-livelock", cfg, "step horizon exceeded".into());
@@ -364,6 +365,51 @@ fn c02(cfg: &CCfg, e: &Exec, f: &Facts, vs: &mut Vec<Violation>, nt: &mut bool) 
             Rec::PollStart(t) if pend.contains(&format!("{t:?}")) => *nt = true,
             _ => {}
         }
+    }
+}
+
+/// Calls that were abandoned after their request had been transmitted, that had not ended from the
+/// dispatch's point of view (no reply read, deadline not passed, dispatch running), and for which
+/// no cancellation has been handed to the transport by the quiescent point Q1.
+fn abandoned_without_cancel(f: &Facts) -> Vec<(usize, u64)> {
+    let mut out = vec![];
+    let Some((q1idx, q1)) = &f.q1 else { return out };
+    if q1[1] == 0 {
+        return out;
+    }
+    let q1_now = q1[5];
+    for (i, _) in &f.abandoned {
+        if f.caller_out.contains_key(i) {
+            continue;
+        }
+        let Some(id) = f.id_of.get(&(*i as u32)) else { continue };
+        let Some((rp, dl)) = f.wire.iter().find_map(|(idx, m)| match m {
+            Msg::Req { id: rid, deadline_ns, .. } if rid == id => Some((*idx, *deadline_ns)),
+            _ => None,
+        }) else {
+            continue;
+        };
+        let cancelled = f.wire.iter().chain(f.failed_sends.iter()).any(|(idx, m)| matches!(m, Msg::Cancel { id: cid, .. } if cid == id) && *idx > rp && idx < q1idx);
+        let read = f.read.iter().any(|(ridx, rid)| rid == id && ridx < q1idx);
+        if !cancelled && !read && dl > q1_now {
+            out.push((*i, *id));
+        }
+    }
+    out
+}
+
+/// C02, the cancellation as an event: "each event that enables progress (... new request or
+/// cancellation ...) wakes the task that must act on it".
+fn c02_cancellations(cfg: &CCfg, e: &Exec, f: &Facts, vs: &mut Vec<Violation>) {
+    if cfg.fault.is_some() || f.horizon || f.spin || !f.panics.is_empty() {
+        return;
+    }
+    let Some((q1idx, _)) = &f.q1 else { return };
+    if e.recs[..*q1idx].iter().any(|r| matches!(r, Rec::T { side: 0, res: Res::Err, .. })) || f.eof_read.map(|x| x < *q1idx).unwrap_or(false) || f.dispatch_dropped.map(|x| x < *q1idx).unwrap_or(false) {
+        return;
+    }
+    for (i, id) in abandoned_without_cancel(f) {
+        v(vs, "C02-Q1-cancellation-not-acted-on", cfg, format!("call {i} (id {id}) was abandoned with its request in flight; everything has settled, nothing is woken, and the dispatch has not acted on the cancellation"));
     }
 }
 
@@ -521,6 +567,25 @@ fn c05(cfg: &CCfg, e: &Exec, f: &Facts, vs: &mut Vec<Violation>, nt: &mut bool) 
                 .map(|(ridx, _)| *ridx)
         });
         if let Some((oidx, o, t)) = f.caller_out.get(&i) {
+            // "... and never before that deadline": on a healthy connection (these configurations
+            // have no faults and no hang-ups) with the dispatch running, a call does not fail with a
+            // connection error either - it ends with its reply or at its deadline
+            if (o == "Shutdown" || o.starts_with("Channel") || o == "Send")
+                && cfg.fault.is_none()
+                && f.eof_sent.is_none()
+                && f.eof_read.is_none()
+                && f.dispatch_done.as_ref().map(|d| d.0 > *oidx).unwrap_or(true)
+                && f.dispatch_dropped.map(|d| d > *oidx).unwrap_or(true)
+                && *t < d_ns
+            {
+                *nt = true;
+                v(
+                    vs,
+                    "C05-failed-without-cause",
+                    cfg,
+                    format!("call {i} (deadline {}ms) failed with {o} at t={}ms on a healthy connection with the dispatch running", c.deadline_ms, t / 1_000_000),
+                );
+            }
             if o == "Deadline" {
                 *nt = true;
                 if *t < d_ns {
@@ -1370,6 +1435,20 @@ pub fn configs(prop: CProp, tier: Tier) -> Vec<CCfg> {
                     out.push(base(callers, 2, 1, fl, cap, A_ABANDON | A_ADVANCE | A_DRAIN));
                 }
             }
+            // at the in-flight limit (1): a queued call gives up (a cancellation for an id that is not
+            // in flight - nothing to do), then the call in flight is abandoned: that cancellation
+            // wakes the dispatch, frees the slot, the third call goes out (seeded change C02i took the
+            // first cancellation for "the queue is closed" and stopped listening to it)
+            for (fl, cap) in [(Flavour::Always, 1usize), (Flavour::Coupled, 1)] {
+                for buf in [1usize, 2] {
+                    let callers = vec![
+                        CallerCfg { deadline_ms: 10_000, ..CallerCfg::simple(false) },
+                        CallerCfg { script: Script::AbandonAfter(1), ..CallerCfg::simple(false) },
+                        CallerCfg { deadline_ms: 10_000, ..CallerCfg::simple(true) },
+                    ];
+                    out.push(base(callers, 1, buf, fl, cap, A_ABANDON | A_DRAIN));
+                }
+            }
             // kept root handle, sequential reuse
             for (fl, cap) in &tr {
                 let mut callers: Vec<CallerCfg> = (0..3).map(|_| CallerCfg::simple(true)).collect();
@@ -1586,6 +1665,25 @@ pub fn configs(prop: CProp, tier: Tier) -> Vec<CCfg> {
         }
         CProp::C11 => {
             let alpha = A_ABANDON | A_REPLY_UNOWED | A_DRAIN | A_ADVANCE | A_DUP;
+            // a queued call is abandoned and another task runs in the middle of its guard's drop
+            // (yield points of the tarpc_verif hooks): whatever the dispatch does in that window, a
+            // request whose caller has gone is not left tracked and transmitted with nobody to cancel it
+            // (seeded change C11i posted the guard's notice before closing its receiver)
+            for (fl, cap) in [(Flavour::Always, 1usize), (Flavour::Coupled, 1)] {
+                for buf in [1usize, 2] {
+                    for ans0 in [true, false] {
+                        for third in [false, true] {
+                            let mut callers = vec![CallerCfg::simple(ans0), CallerCfg { script: Script::AbandonAfter(1), ..CallerCfg::simple(false) }];
+                            if third {
+                                callers.push(CallerCfg::simple(true));
+                            }
+                            let mut c = base(callers, 1, buf, fl, cap, A_ABANDON | A_PARK | A_DRAIN);
+                            c.keep_root = true;
+                            out.push(c);
+                        }
+                    }
+                }
+            }
             for (fl, cap) in transports {
                 for mif in 1..=2usize {
                     for buf in [1usize, 2] {
